@@ -464,6 +464,7 @@ def step (s : DState) (line : String) : DState × List String :=
       | _, _, _ => diff s "PROTO" "bad bn new"
     | "bn" :: op :: id :: rest =>
       let s := { s with bareOps := s.bareOps + 1 }
+      if impl == "PANIC" then diff s "SPEC" s!"node operation {op} panicked" else
       match id.toNat?.bind (fun id => (s.bares.find? (·.1 == id)).map (fun b => (id, b.2))) with
       | none => diff s "PROTO" "unknown bare node"
       | some (id, bs) =>
